@@ -241,9 +241,124 @@ func soak(c *simkit.Choices, x *simkit.Ctx) *simkit.Violation {
 	return nil
 }
 
+var chainDepths = []int{8, 15, 16, 17, 30, 31, 32, 33, 34, 35, 40, 63, 64, 65, 66, 100, 127, 128, 129, 130}
+
+// genChain draws a document that is one chain of nested containers of drawn
+// kinds (with a sibling before the nested one now and then), depth levels deep.
+func genChain(c *simkit.Choices, depth int) []simkit.Ev {
+	var evs, tail []simkit.Ev
+	for l := 0; l < depth; l++ {
+		if c.Bool() {
+			evs = append(evs, simkit.Ev{K: simkit.KArrStart, I: -1})
+			if c.N(3) == 0 {
+				evs = append(evs, simkit.Ev{K: simkit.KInt64, I: int64(l)})
+			}
+			tail = append(tail, simkit.Ev{K: simkit.KArrEnd})
+		} else {
+			evs = append(evs, simkit.Ev{K: simkit.KObjStart, I: -1})
+			if c.N(3) == 0 {
+				evs = append(evs, simkit.Ev{K: simkit.KKey, S: "s"}, simkit.Ev{K: simkit.KStr, S: "v"})
+			}
+			evs = append(evs, simkit.Ev{K: simkit.KKey, S: string(rune('a' + l%3))})
+			tail = append(tail, simkit.Ev{K: simkit.KObjEnd})
+		}
+	}
+	evs = append(evs, simkit.Ev{K: simkit.KInt64, I: int64(c.N(1000))})
+	for i := len(tail) - 1; i >= 0; i-- {
+		evs = append(evs, tail[i])
+	}
+	return evs
+}
+
+// deep: ONE unfolder processes several documents nested deeper than its
+// inline stack space, of different shapes, completed or abandoned, with and
+// without Reset; every completed document must build what a new unfolder
+// builds.
+func deep(c *simkit.Choices, x *simkit.Ctx) *simkit.Violation {
+	st := x.Stats
+	te := model.TypeByName("interface{}")
+	nd := 2 + c.N(3)
+	sc := &Scenario{Target: "deep-documents", ProbeType: te.Name}
+	type docT struct {
+		evs   []simkit.Ev
+		k     int
+		reset bool
+	}
+	var docs []docT
+	for i := 0; i < nd; i++ {
+		d := docT{evs: genChain(c, chainDepths[c.N(len(chainDepths))])}
+		d.k = len(d.evs)
+		if i < nd-1 && c.N(3) == 0 {
+			d.k = 1 + c.N(len(d.evs)-1)
+		}
+		d.reset = d.k < len(d.evs) || c.Bool()
+		docs = append(docs, d)
+		sc.Announced = append(sc.Announced, fmt.Sprintf("document %d: %d events, delivered %d, Reset afterwards %v: %s", i, len(d.evs), d.k, d.reset, simkit.EventsString(d.evs, 80)))
+	}
+	simkit.SetCurrent(sc)
+	st.Eval(1)
+	st.Fault("deep-documents-on-one-unfolder")
+	st.Distinct(simkit.NewDigest().Str("deep").Str(fmt.Sprint(sc.Announced)).Sum())
+	var v *simkit.Violation
+	pi := simkit.Guard(func() {
+		u, err := gotype.NewUnfolder(nil)
+		if err != nil {
+			return
+		}
+		for i, d := range docs {
+			ptr, _, val := te.NewTarget()
+			if err := u.SetTarget(ptr); err != nil {
+				v = &simkit.Violation{Kind: "probe-differs", Site: "deep/SetTarget", Detail: fmt.Sprintf("SetTarget before document %d: %v", i, err), Scenario: sc}
+				return
+			}
+			var gerr error
+			for j := 0; j < d.k && gerr == nil; j++ {
+				x.Clock++
+				gerr = simkit.Emit(u, d.evs[j], false)
+			}
+			if d.k == len(d.evs) {
+				got := model.DeepCopy(val())
+				fptr, _, fval := te.NewTarget()
+				fu, _ := gotype.NewUnfolder(fptr)
+				ferr := deliverAll(fu, d.evs, false)
+				if (ferr == nil) != (gerr == nil) || (ferr == nil && !model.DeepEq(fval(), got)) {
+					v = &simkit.Violation{Kind: "probe-differs", Site: "deep->" + te.Name,
+						Detail: fmt.Sprintf("document %d on the re-used unfolder: %s (err %v); on a new unfolder: %s (err %v)", i, trunc(model.Render(got), 300), gerr, trunc(model.Render(fval()), 300), ferr), Scenario: sc}
+					return
+				}
+			}
+			if d.reset || gerr != nil {
+				u.Reset()
+			}
+		}
+	})
+	if v != nil {
+		return v
+	}
+	if pi != nil {
+		// (a single deep document on a new unfolder panicking is not this scenario's question)
+		for _, d := range docs {
+			if fp := simkit.Guard(func() {
+				ptr, _, _ := te.NewTarget()
+				fu, _ := gotype.NewUnfolder(ptr)
+				deliverAll(fu, d.evs, false)
+			}); fp != nil {
+				st.Probe("deep-document-panics-on-a-new-unfolder-too")
+				return nil
+			}
+		}
+		return &simkit.Violation{Kind: "panic", Site: "deep" + pi.Site, Detail: pi.Value + "\n" + pi.Stack, Scenario: sc}
+	}
+	st.Probe("deep-completed")
+	return nil
+}
+
 func (Engine) Run(c *simkit.Choices, x *simkit.Ctx) *simkit.Violation {
 	if c.N(60) == 0 {
 		return soak(c, x)
+	}
+	if c.N(40) == 0 {
+		return deep(c, x)
 	}
 	st := x.Stats
 	unfolderVariant = 0
@@ -525,3 +640,10 @@ func deliverAll(u *gotype.Unfolder, evs []simkit.Ev, byRef bool) error {
 }
 
 var _ structform.Visitor = (*gotype.Unfolder)(nil)
+
+func trunc(s string, n int) string {
+	if len(s) > n {
+		return s[:n] + "…"
+	}
+	return s
+}
